@@ -253,6 +253,39 @@ Theorem C24_multi_merge_valid_flat :
 Proof. exact multi_merge_valid_flat. Qed.
 Print Assumptions C24_multi_merge_valid_flat.
 
+(** Repeat(block, []) and Merge([block]) at the level of the flat record.  [again ci fb al]: the
+    arguments a constructor passes on for the block [fb] built from [ci] - its filtered crossings, all
+    its sustain counts, its final weights in REPEAT mode, its constraints with their [within_block]
+    initialised, alignment [al]; [merge_again]: the same with the counts and weights of the actual
+    crossings only and the block's own alignment.  Side conditions: constraints about single levels
+    (a run-length constraint on a whole factor is deep-copied with a geometry that has lost its
+    factor keys: Front/CreateFlat.v [forget_keys]), the block not aligned POST_PREAMBLE (c24.py
+    finding equiv:repeat-nil:solutions-differ), equal preamble sizes for Repeat (else it raises, as
+    documented). *)
+Theorem C24_repeat_nil_flat :
+  forall ci fb,
+    create_flat ci = FOk fb -> all_level_constraints (ci_constraints ci) ->
+    ci_alignment ci <> PostPreamble -> all_eq (fl_preambles fb) = true ->
+    create_flat (again ci fb EqualPreamble) = FOk (with_alignment fb EqualPreamble).
+Proof. exact repeat_nil_flat. Qed.
+Print Assumptions C24_repeat_nil_flat.
+
+Theorem C24_merge_singleton_flat :
+  forall ci fb,
+    create_flat ci = FOk fb -> all_level_constraints (ci_constraints ci) -> min_trials_positive (ci_constraints ci) ->
+    ci_alignment ci <> PostPreamble ->
+    Forall (fun n => n = 1) (skipn (length (st_crossings ci)) (ci_sustains ci)) ->
+    exists fb', create_flat (merge_again ci fb) = FOk fb' /\ flat_equiv fb fb'.
+Proof. exact merge_singleton_flat. Qed.
+Print Assumptions C24_merge_singleton_flat.
+
+Example C24_example_again :
+  exists fb, create_flat ex_block_input = FOk fb /\ fl_trials fb = 3 /\ fl_alignment fb = ParallelStart /\
+    all_level_constraints (ci_constraints ex_block_input) /\ all_eq (fl_preambles fb) = true /\
+    create_flat (again ex_block_input fb EqualPreamble) = FOk (with_alignment fb EqualPreamble) /\
+    create_flat (merge_again ex_block_input fb) = FOk fb.
+Proof. exact ex_block_again. Qed.
+
 (** equivalent arguments are accepted or rejected alike *)
 Theorem C24_respects_outcome :
   forall a b, input_equiv a b -> forall e, create_flat a = FErr e <-> create_flat b = FErr e.
